@@ -104,13 +104,19 @@ func runC11Listener(c C11Case) (ev.Outcome, bool) {
 		}(i, n)
 	}
 	usedConn := false
-	if l.UseConn && calls > 0 {
+	var acc net.Conn
+	if (l.UseConn || l.Reopen) && calls > 0 {
 		select {
 		case conn := <-handedC:
 			usedConn = true
+			acc = conn
 			msg := []byte("through the accepted connection")
 			res := make(chan string, 1)
 			go func() {
+				if !l.UseConn {
+					res <- ""
+					return
+				}
 				defer guard("listener data")
 				bp := getBuf()
 				defer putBuf(bp)
@@ -136,6 +142,74 @@ func runC11Listener(c C11Case) (ev.Outcome, bool) {
 			}
 		case <-time.After(hangAfter):
 			hang = fmt.Sprintf("none of %d Accept calls returned the connection within %v", calls, hangAfter)
+			return finish()
+		}
+	}
+	// re-open variant: the user of the accepted connection closes it and the id is put to use
+	// again; the listener's Close below then closes the wrapped (stale) connection once more,
+	// which must not affect the new incarnation
+	type curResult struct {
+		frames int
+		err    error
+		bad    string
+	}
+	var curRes chan curResult
+	curDesc := func(k int) payloadDesc {
+		return payloadDesc{Conn: 0, Dir: 1, Writer: 2, Seq: k, Len: 5 + 3*k, ID: c.IDs[0]}
+	}
+	sent := 0
+	send := func(n int) bool {
+		ok := true
+		for k := 0; k < n && ok; k++ {
+			d := curDesc(sent)
+			b := make([]byte, d.Len)
+			d.fill(b)
+			done := make(chan error, 1)
+			go func() { defer guard("peer Write"); _, err := p.conns[1][0].Write(b); done <- err }()
+			select {
+			case err := <-done:
+				if err != nil {
+					failf("peer Write to the re-opened id=%d returned %v before any failure", c.IDs[0], err)
+					ok = false
+				}
+			case <-time.After(hangAfter):
+				hang = fmt.Sprintf("peer Write to the re-opened id did not return within %v", hangAfter)
+				ok = false
+			}
+			sent++
+		}
+		return ok
+	}
+	if l.Reopen && acc != nil {
+		_ = acc.Close()
+		cur, err := p.m[0].Open(multiplex.ConnID(c.IDs[0]))
+		if err != nil || cur == nil {
+			failf("re-Open(%d) returned (%v, %v)", c.IDs[0], cur, err)
+			return finish()
+		}
+		o.Classes = append(o.Classes, "listener_reopened_id")
+		curRes = make(chan curResult, 1)
+		go func() {
+			defer guard("reader of the re-opened connection")
+			bp := getBuf()
+			defer putBuf(bp)
+			r := curResult{}
+			for {
+				n, err := cur.Read(*bp)
+				if err != nil {
+					r.err = err
+					break
+				}
+				d := curDesc(r.frames)
+				if n != d.Len || d.match((*bp)[:n], 0) >= 0 {
+					r.bad = fmt.Sprintf("frame #%d read from the re-opened id=%d (%d bytes) is not the %d-th frame sent (%d bytes): gap, duplicate or damaged frame", r.frames, c.IDs[0], n, r.frames, d.Len)
+					break
+				}
+				r.frames++
+			}
+			curRes <- r
+		}()
+		if !send(l.FramesBefore) {
 			return finish()
 		}
 	}
@@ -213,6 +287,34 @@ func runC11Listener(c C11Case) (ev.Outcome, bool) {
 	case <-time.After(hangAfter):
 		hang = fmt.Sprintf("Read/Write on the wrapped connection after Close of the listener did not return within %v", hangAfter)
 		return finish()
+	}
+
+	if curRes != nil {
+		if !send(l.FramesAfter) {
+			return finish()
+		}
+		side := l.CloseSide & 1
+		cd := make(chan struct{})
+		go func() { defer close(cd); defer guard("mux Close"); _ = p.m[side].Close() }()
+		select {
+		case <-cd:
+		case <-time.After(hangAfter):
+			hang = fmt.Sprintf("Close of mux %d did not return within %v", side, hangAfter)
+			return finish()
+		}
+		select {
+		case r := <-curRes:
+			if r.bad != "" {
+				failf("%s", r.bad)
+			}
+			if r.frames > sent {
+				failf("the re-opened connection received %d frames, only %d were sent", r.frames, sent)
+			}
+			o.NonTrivial = true
+		case <-time.After(hangAfter):
+			hang = fmt.Sprintf("the reader blocked on the re-opened connection id=%d did not return within %v after mux %d was closed (the listener had closed the stale wrapped connection before)", c.IDs[0], hangAfter, side)
+			return finish()
+		}
 	}
 
 	h := handed.Load()
